@@ -256,6 +256,14 @@ pub fn base_world(rng: &mut Rng, o: &BaseOpts, mix: &Mix, net: NetSpec) -> (Spec
     if rng.chance(o.parser_p) {
         cfg.pools[0].query_parser_enabled = true;
     }
+    // A stray CopyDone whose checkout fails is answered with an error and ReadyForQuery, which a
+    // client that counts ReadyForQuery cannot tell from the reply to its next statement: no stray
+    // copy messages where a checkout may have to wait for a whole session of somebody else.
+    let mut mix_here = mix.clone();
+    if session && pool_size < nclients {
+        mix_here.stray_copy = false;
+    }
+    let mix = &mix_here;
     let mut clients = Vec::new();
     for i in 0..nclients {
         let id = i + 1;
